@@ -87,8 +87,8 @@ CLAIMED = {
    technique="Coq BFS invariant proof + double-counting theorem; exact rational comparison with the implementation",
    design="6 C15"),
  "C12": dict(
-   text="Proof + differential exploration. Model/Linear.v is PauliStringLinear over Gaussian-integer coefficients (dictionary sums in insertion order, zero terms dropped). Proved for every n and all term lists: the matrix of a@b is the matrix product, of a+b the sum, of c*a the scaled matrix, of a.h the conjugate transpose; simplify keeps the matrix; trace = matrix trace; is_zero exactly when the matrix vanishes and matrices equal exactly when collected coefficients agree (linear independence of Pauli matrices over Z[i], proved from trace orthogonality). The snapshot is refuted on three witnesses. Per run: random term lists (repeats, zeros, cancellations, empty, aliased operands) n<=4: results as term multisets vs the model, numpy matrices for n<=3, str() parsed back.",
-   note="Float rounding, the 1e-12/isclose tolerances and :.8g formatting are not modelled (partial w.r.t. floats). The step from 'coefficients agree' to the implementation's dictionary comparison in __eq__ is compared per run, not proved. No axioms.",
+   text="Proof + differential exploration. Model/Linear.v is PauliStringLinear over Gaussian-integer coefficients (dictionary sums in insertion order, zero terms dropped). Proved for every n and all term lists: the matrix of a@b is the matrix product, of a+b the sum, of c*a the scaled matrix, of a.h the conjugate transpose; simplify keeps the matrix; trace = matrix trace; is_zero exactly when the matrix vanishes and matrices equal exactly when collected coefficients agree, and the model of __eq__ (simplify both, look every term up in the other side) decides exactly that (C12_eq_iff) (linear independence of Pauli matrices over Z[i], proved from trace orthogonality). The snapshot is refuted on three witnesses. Per run: random term lists (repeats, zeros, cancellations, empty, aliased operands) n<=4: results as term multisets vs the model, numpy matrices for n<=3, str() parsed back.",
+   note="Float rounding, the 1e-12/isclose tolerances and :.8g formatting are not modelled (partial w.r.t. floats). No axioms.",
    technique="Coq proofs of matrix semantics incl. linear independence + exact term-level correspondence",
    design="6 C12"),
  "C13": dict(
